@@ -363,6 +363,8 @@ func ruleC17Busy(cx *Ctx) {
 					if fa, ok := stripLoad(ia.X).(*ssa.FieldAddr); ok {
 						slotBase = fa.X
 					}
+				} else if len(slotFromHelper(recvValue(in), buffers)) > 0 {
+					isSlotStore = true // the slot address comes from a helper (s.emptySlot(t))
 				}
 			}
 			if !isTableStore && !isSlotStore {
@@ -641,6 +643,31 @@ func ruleC17OnceAdd(cx *Ctx) {
 		reachesRecord := func(start Pt) (bool, string) {
 			type key struct{ b, prev *ssa.BasicBlock }
 			seen := map[key]bool{}
+			// comparisons already decided where the walk starts (x != nil tested again later on the same value x)
+			condKey := func(v ssa.Value) (string, bool) {
+				c, neg := stripNot(v)
+				b, ok := c.(*ssa.BinOp)
+				if !ok {
+					return "", false
+				}
+				op := b.Op
+				if op == token.NEQ {
+					op, neg = token.EQL, !neg
+				}
+				vk := func(v ssa.Value) string {
+					if c, ok := v.(*ssa.Const); ok {
+						return "const:" + c.String()
+					}
+					return fmt.Sprintf("%p", v)
+				}
+				return fmt.Sprintf("%v|%s|%s", op, vk(b.X), vk(b.Y)), neg
+			}
+			known := map[string]bool{}
+			for _, g := range rawGuardsAt(start.B) {
+				if k, neg := condKey(g.Cond); k != "" {
+					known[k] = g.Truth != neg
+				}
+			}
 			var walk func(b, prev *ssa.BasicBlock, i int) (bool, string)
 			walk = func(b, prev *ssa.BasicBlock, i int) (bool, string) {
 				for ; i < len(b.Instrs); i++ {
@@ -649,6 +676,17 @@ func ruleC17OnceAdd(cx *Ctx) {
 					}
 				}
 				succs := b.Succs
+				if ifi, ok := b.Instrs[len(b.Instrs)-1].(*ssa.If); ok {
+					if k, neg := condKey(ifi.Cond); k != "" {
+						if t, has := known[k]; has {
+							if t != neg {
+								succs = b.Succs[:1]
+							} else {
+								succs = b.Succs[1:2]
+							}
+						}
+					}
+				}
 				// a branch on a phi of constants is decided by the edge we came in on
 				if ifi, ok := b.Instrs[len(b.Instrs)-1].(*ssa.If); ok && prev != nil {
 					c, neg := stripNot(ifi.Cond)
@@ -816,6 +854,24 @@ func ruleC17Current(cx *Ctx) {
 			if !isStdMethod(in, "sync/atomic", "Pointer", "Store") {
 				return
 			}
+			// slot store through an address handed out by a helper: the helper must take it from the current table and
+			// the flag must be held from there to the store
+			if ias := slotFromHelper(recvValue(in), buffers); len(ias) > 0 {
+				n++
+				ok, why := bc.heldAt(in) && bc.heldAt(recvValue(in).(*ssa.Call)), "the busy flag is held at the helper call and at the store"
+				for _, ia := range ias {
+					fa, _ := stripLoad(ia.X).(*ssa.FieldAddr)
+					if fa == nil {
+						ok, why = false, "slot base not recognisable"
+						continue
+					}
+					if okc, w := current(fa.X, ia, 0); !okc {
+						ok, why = false, w
+					}
+				}
+				cx.R.Check(ok, rule, name, fmt.Sprintf("attach #%d", n), cx.P.where(in), "the slot written belongs to the table current under the busy flag ("+why+")")
+				return
+			}
 			// slot store
 			if ia, ok := recvValue(in).(*ssa.IndexAddr); ok && sameField(fieldOf(ia.X), buffers) {
 				fa, _ := stripLoad(ia.X).(*ssa.FieldAddr)
@@ -902,4 +958,57 @@ func freshObject(v ssa.Value) bool {
 		return ok && n > 0
 	}
 	return false
+}
+
+// slotFromHelper: v is the result of a helper of the package that returns the address of a stripe slot (or nil): the
+// IndexAddr instructions inside the helper that it may return.
+func slotFromHelper(v ssa.Value, buffers *types.Var) []*ssa.IndexAddr {
+	c, ok := v.(*ssa.Call)
+	if !ok || c.Call.IsInvoke() || c.Call.StaticCallee() == nil {
+		return nil
+	}
+	h := origin(c.Call.StaticCallee())
+	if h == nil || h.Pkg == nil || !strings.HasSuffix(h.Pkg.Pkg.Path(), lossyPkg) {
+		return nil
+	}
+	var out []*ssa.IndexAddr
+	good := true
+	var visit func(r ssa.Value, d int)
+	visit = func(r ssa.Value, d int) {
+		switch x := r.(type) {
+		case *ssa.IndexAddr:
+			if sameField(fieldOf(x.X), buffers) {
+				out = append(out, x)
+			} else {
+				good = false
+			}
+		case *ssa.Const:
+			if !x.IsNil() {
+				good = false
+			}
+		case *ssa.Phi:
+			if d > 3 {
+				good = false
+				return
+			}
+			for _, e := range x.Edges {
+				visit(e, d+1)
+			}
+		default:
+			good = false
+		}
+	}
+	allInstrs(h, func(in ssa.Instruction) {
+		if r, ok := in.(*ssa.Return); ok {
+			if len(r.Results) != 1 {
+				good = false
+				return
+			}
+			visit(r.Results[0], 0)
+		}
+	})
+	if !good {
+		return nil
+	}
+	return out
 }
